@@ -1,6 +1,7 @@
 import DdsModel.Drv.C01
 import DdsModel.Drv.C02
 import DdsModel.Drv.C03
+import DdsModel.Drv.C03x
 import DdsModel.Drv.C04
 import DdsModel.Drv.C05
 import DdsModel.Drv.C06
@@ -25,6 +26,7 @@ def dispatch (prop : String) : Option (String → String) :=
   | "C01" => some runC01
   | "C02" => some runC02
   | "C03" => some runC03
+  | "C03x" => some runC03x
   | "C04" => some runC04
   | "C05" => some runC05
   | "C06" => some runC06
